@@ -277,6 +277,73 @@ done:
 	return ret;
 }
 
+/* Everything a key can sign by its own nature, in every encoding a provider's native verification takes: ECDSA over SHA-256/384/512
+ * as r||s and as DER; RSA PKCS#1 v1.5 and PSS over the three hashes; EdDSA.  A verifier that lets the key decide what the
+ * signature is (instead of the pinned algorithm) accepts one of these under the wrong header. */
+int rc_native_count(const vk_t *k)
+{
+	if (!k || !k->pkey_priv)
+		return 0;
+	return !strcmp(k->kty, "OKP") ? 1 : 6;
+}
+int rc_native_sign(const vk_t *k, int variant, const void *msg, size_t n, unsigned char **sig, size_t *siglen, const char **label)
+{
+	static const char *ec_l[6] = { "ECDSA-SHA256 r||s", "ECDSA-SHA384 r||s", "ECDSA-SHA512 r||s", "ECDSA-SHA256 DER", "ECDSA-SHA384 DER", "ECDSA-SHA512 DER" };
+	static const char *rsa_l[6] = { "RSA-PKCS1-SHA256", "RSA-PKCS1-SHA384", "RSA-PKCS1-SHA512", "RSA-PSS-SHA256", "RSA-PSS-SHA384", "RSA-PSS-SHA512" };
+	static const jwt_alg_t hash_of[3] = { JWT_ALG_HS256, JWT_ALG_HS384, JWT_ALG_HS512 };
+	*sig = NULL;
+	*siglen = 0;
+	if (variant < 0 || variant >= rc_native_count(k))
+		return 1;
+	if (!strcmp(k->kty, "OKP")) {
+		if (label) *label = "EdDSA";
+		return rc_sign(k, JWT_ALG_EDDSA, msg, n, sig, siglen);
+	}
+	int ec = !strcmp(k->kty, "EC"), second = variant >= 3;
+	const EVP_MD *md = rc_md(hash_of[variant % 3]);
+	if (label) *label = ec ? ec_l[variant] : rsa_l[variant];
+	EVP_MD_CTX *ctx = EVP_MD_CTX_new();
+	EVP_PKEY_CTX *pctx = NULL;
+	EVP_PKEY *tmp = ec ? NULL : plain_rsa(k->pkey_priv, 1), *key = ec ? k->pkey_priv : tmp;
+	unsigned char *s = NULL;
+	size_t sl = 0;
+	int ret = 1;
+	if (!key || EVP_DigestSignInit(ctx, &pctx, md, NULL, key) != 1)
+		goto done;
+	if (!ec && second &&
+	    (EVP_PKEY_CTX_set_rsa_padding(pctx, RSA_PKCS1_PSS_PADDING) <= 0 || EVP_PKEY_CTX_set_rsa_pss_saltlen(pctx, RSA_PSS_SALTLEN_DIGEST) <= 0 ||
+	     EVP_PKEY_CTX_set_rsa_mgf1_md(pctx, md) <= 0))
+		goto done;
+	if (EVP_DigestSign(ctx, NULL, &sl, msg, n) != 1)
+		goto done;
+	s = malloc(sl + 8);
+	if (EVP_DigestSign(ctx, s, &sl, msg, n) != 1)
+		goto done;
+	if (ec && !second) {
+		const unsigned char *p = s;
+		ECDSA_SIG *es = d2i_ECDSA_SIG(NULL, &p, sl);
+		if (!es)
+			goto done;
+		int w = (k->bits + 7) / 8;
+		unsigned char *raw = calloc(1, 2 * w);
+		BN_bn2binpad(ECDSA_SIG_get0_r(es), raw, w);
+		BN_bn2binpad(ECDSA_SIG_get0_s(es), raw + w, w);
+		ECDSA_SIG_free(es);
+		free(s);
+		s = raw;
+		sl = 2 * w;
+	}
+	*sig = s;
+	*siglen = sl;
+	s = NULL;
+	ret = 0;
+done:
+	free(s);
+	EVP_MD_CTX_free(ctx);
+	EVP_PKEY_free(tmp);
+	return ret;
+}
+
 int rc_lenient_width = 1;   /* 1 (the documented C01 oracle): RSA / ECDSA signatures are judged as integers, whatever their zero-padded width; 0: RFC 7518 widths only */
 static int rc_verify_inner(const vk_t *k, jwt_alg_t alg, const void *msg, size_t n, const unsigned char *sig, size_t siglen)
 {
